@@ -4,7 +4,9 @@
 
    STATE = the file system of one Go module, abstractly:
      src[p]    version of package p's hand-written sources
-     user[p]   a user / look-alike file (zz_generatedx.go, zz_generated, user.go) is present in p's directory
+     user[p]   "no" / "yes": a user / look-alike file (zz_generatedx.go, zz_generated, user.go) is present in p's directory;
+               "unreadable": an entry that can be listed but not read (an editor's lock file = a dangling symbolic link) is
+               present - the directory's hash cannot be computed
      out[p][g] "absent" or the content id of <base>.<g>.go  (g ranges over the generators of the model and the
                retired generator "old", whose file is a stale output)
      sum       gengo.sum: [present, m : package -> recorded hash | "none", canon : the text is exactly one sorted
@@ -29,6 +31,8 @@ CONSTANTS Pkgs,           \* set of package names
           RootPkg,        \* the package in the module root, or "none"
           HashCoversSum,  \* BOOLEAN: the root package's hash covers gengo.sum (the code before the fix)
           SaveAlways,     \* BOOLEAN: a successful All run always rewrites gengo.sum (the code); FALSE = only when the mapping changed
+          SkipUnknown,    \* BOOLEAN: FALSE = a directory whose hash is unknown is never "unchanged" (the statement; the code since the
+                          \* fix); TRUE = unknown compares equal to "no entry" (the code before the fix)
           KeepAfterDefers,\* BOOLEAN: whether a generator's file is kept is decided after its deferred callbacks ran (the code)
           BehChoices,     \* set of behaviour configurations [Pkgs -> [gens -> behaviour]]
           ArgsMenu,       \* set of run arguments [all, force, entry, gens]
@@ -38,6 +42,7 @@ GenSet == {Gens[i] : i \in 1..Len(Gens)}
 AllGen == GenSet \cup {"old"}
 Absent == <<"absent">>
 None == <<"none">>
+UserStates == {"no", "yes", "unreadable"}
 
 Content(p, g, b) == <<"content", p, g, b>>        \* what generator g with behaviour b writes for p (a function of p's types only)
 
@@ -55,7 +60,9 @@ FS == [src |-> src, user |-> user, out |-> out, sum |-> sum]
 
 (* ---------------------------------------------------------------- directory hashes *)
 Own(p) == <<src[p], user[p], out[p]>>
-HashOf(p) == <<Own(p), [q \in Under[p] |-> Own(q)], IF p = RootPkg /\ HashCoversSum THEN <<sum>> ELSE <<"-">>>>
+Hashable(p) == user[p] # "unreadable" /\ \A q \in Under[p] : user[q] # "unreadable"
+HashOf(p) == IF Hashable(p) THEN <<Own(p), [q \in Under[p] |-> Own(q)], IF p = RootPkg /\ HashCoversSum THEN <<sum>> ELSE <<"-">>>>
+             ELSE None
 
 NoSum == [present |-> FALSE, m |-> [p \in Pkgs |-> None], canon |-> TRUE]
 
@@ -67,7 +74,7 @@ Local(a) == Closure(a.entry)                          \* packages of the module 
 Selected(a) == IF a.all THEN Local(a) ELSE a.entry
 InOrder(S) == SelectSeq(Order, LAMBDA p : p \in S)
 
-Cached(p) == args.all /\ ~args.force /\ prev.present /\ prev.m[p] # None /\ prev.m[p] = hload[p]
+Cached(p) == args.all /\ ~args.force /\ prev.present /\ (SkipUnknown \/ prev.m[p] # None) /\ prev.m[p] = hload[p]
 
 (* what a complete, fault-free processing of p must leave behind, as a function of p's behaviour, the
    generator list and p's own previous outputs ONLY (C04 C05 C07) *)
@@ -82,7 +89,7 @@ ExpectedOut(p, a, before) ==
 RenderedByTypes(b) == Rendered(b) /\ b # "defer_only"      \* something was rendered before the deferred callbacks ran
 
 (* ---------------------------------------------------------------- initial state *)
-Init == /\ src = [p \in Pkgs |-> 0] /\ user = [p \in Pkgs |-> FALSE]
+Init == /\ src = [p \in Pkgs |-> 0] /\ user = [p \in Pkgs |-> "no"]
         /\ out = [p \in Pkgs |-> [g \in AllGen |-> Absent]]
         /\ sum = NoSum
         /\ beh \in BehChoices
@@ -101,7 +108,7 @@ EnvStep == pc = "idle" /\ envs < MaxEnv /\ envs' = envs + 1 /\ quiet' = 0 /\ pc'
            /\ UNCHANGED <<runctl, runs, lastRegen, lastChanged, failInfo>>
 
 EditSrc(p)    == EnvStep /\ src[p] < MaxSrc /\ src' = [src EXCEPT ![p] = @ + 1] /\ UNCHANGED <<user, out, sum>>
-ToggleUser(p) == EnvStep /\ user' = [user EXCEPT ![p] = ~@] /\ UNCHANGED <<src, out, sum>>
+ToggleUser(p) == EnvStep /\ (\E v \in UserStates \ {user[p]} : user' = [user EXCEPT ![p] = v]) /\ UNCHANGED <<src, out, sum>>
 (* a file under the name of a generator that still runs: left by an earlier version of it, restored from a backup ... *)
 PlantPrev(p, g) == EnvStep /\ out[p][g] # <<"planted", p, g>> /\ out' = [out EXCEPT ![p][g] = <<"planted", p, g>>] /\ UNCHANGED <<src, user, sum>>
 PlantStale(p) == EnvStep /\ out[p]["old"] = Absent /\ out' = [out EXCEPT ![p]["old"] = <<"stale", p>>] /\ UNCHANGED <<src, user, sum>>
@@ -149,6 +156,7 @@ EndRun(kind, info) ==
 Reap == /\ pc \in {"finished", "failed", "dead"}
         /\ pc' = "idle" /\ runs' = runs + 1
         /\ quiet' = IF pc = "finished" /\ args.all /\ ~args.force /\ ~faulted /\ args.entry = Pkgs /\ Len(args.gens) = Len(Gens)
+                       /\ \A p \in Pkgs : hload[p] # None                       \* a directory without a hash never counts as quiet
                     THEN quiet + 1 ELSE 0
         /\ lastRegen' = regen
         /\ lastChanged' = (FS # snap0)
@@ -252,7 +260,7 @@ FineRefinesMacro == (pc = "failed" /\ failInfo.kind = "syntax") =>
 
 (* C08 *)
 C08_SkipOnlyIfUnchanged == [][(pc = "next" /\ pc' = "next" /\ queue' # queue /\ regen' = regen) =>
-                                 (~args.force /\ prev.present /\ prev.m[Head(queue)] = HashOf(Head(queue)))]_vars
+                                 (~args.force /\ prev.present /\ prev.m[Head(queue)] # None /\ prev.m[Head(queue)] = HashOf(Head(queue)))]_vars
 C08_SumAfterSuccess == (pc = "finished" /\ args.all) =>
                           (sum.present /\ sum.canon /\ \A p \in Pkgs : sum.m[p] = IF p \in Local(args) THEN hload[p] ELSE None)
 C08_Converges == quiet >= ConvergeBound => (lastRegen = {} /\ ~lastChanged)
